@@ -407,11 +407,12 @@ fn trees(rng: &mut Rng, n: usize) {
                 stmts.push((ty, g.expr(ty, d)));
             }
             let text = prog_text(&Prog { consts: vec![], stmts });
+            for round in 0..6 {
             let mut regs = vec![];
             for &ir in &INT_REGS { let v = if r.chance(1, 2) { *r.pick(&INT_GRID) } else { r.next_u64() as i32 }; regs.push((ir, ScalarValue::Int(v))); }
             for &fr in &FLOAT_REGS {
-                let mut b = if r.chance(1, 2) { *r.pick(&FLOAT_GRID) } else { r.next_u64() as u32 };
-                if f32::from_bits(b).is_nan() { b = 0x3f800000; }
+                let mut b = if r.chance(2, 3) { *r.pick(&FLOAT_GRID) } else { r.next_u64() as u32 };
+                if f32::from_bits(b).is_nan() { b = 0xbf800000; }
                 regs.push((fr, ScalarValue::Float(f32::from_bits(b))));
             }
             let diff = r.below(4) as u32;
@@ -419,7 +420,7 @@ fn trees(rng: &mut Rng, n: usize) {
                 let regs_s = regs.iter().map(|(k, v)| format!("({}, {})", k, coq_value(v))).collect::<Vec<_>>().join("; ");
                 for (idx, t) in terms.iter().enumerate() {
                     let r0 = before[idx].clone().map(Some);
-                    println!("EVAL\tKEval [{}] {} {}%nat {}\t{}", regs_s, t, diff, coq_ires(&r0, coq_value), text.replace('\n', " "));
+                    if round == 0 { println!("EVAL\tKEval [{}] {} {}%nat {}\t{}", regs_s, t, diff, coq_ires(&r0, coq_value), text.replace('\n', " ")); }
                     // oracle: the simplified expression evaluates to the same value
                     if let (Ok(b), Some(a)) = (&before[idx], after.get(idx)) {
                         match a {
@@ -428,7 +429,8 @@ fn trees(rng: &mut Rng, n: usize) {
                         }
                     }
                 }
-            } else { rejected += 1; }
+            } else { rejected += 1; break; }
+            }
         }
         let _ = i;
     }
@@ -442,6 +444,23 @@ fn main() {
     match args.get(1).map(|s| s.as_str()) {
         Some("grid") => grid(&mut rng, args.get(2).and_then(|s| s.parse().ok()).unwrap_or(8), args.get(3).map(|s| s == "quick").unwrap_or(false)),
         Some("trees") => trees(&mut rng, args.get(2).and_then(|s| s.parse().ok()).unwrap_or(100)),
+        Some("probe") => {
+            // many boundary valuations of one const-free program: AstVm before vs after simplification
+            let text = std::fs::read_to_string(&args[2]).expect("read");
+            for _ in 0..200 {
+                let mut regs = vec![];
+                for &ir in &INT_REGS { regs.push((ir, ScalarValue::Int(*rng.pick(&INT_GRID)))); }
+                for &fr in &FLOAT_REGS { let mut b = *rng.pick(&FLOAT_GRID); if f32::from_bits(b).is_nan() { b = 0xbf800000; } regs.push((fr, ScalarValue::Float(f32::from_bits(b)))); }
+                let diff = rng.below(4) as u32;
+                if let Some((_, before, after)) = run_vm(&text, &regs, diff) {
+                    for idx in 0..before.len() {
+                        if let (Ok(b), Some(a)) = (&before[idx], after.get(idx)) {
+                            match a { Ok(a) if same_value(a, b) => {}, other => { println!("ORACLE-FAIL\tsimplified expression evaluates differently: before {:?} after {:?} regs {:?} diff {}\t{}", b, other, regs, diff, text.replace('\n', " ")); return; } }
+                        }
+                    }
+                }
+            }
+        },
         Some("text") => {
             // replay: run one program text through simplification and print the case
             let text = std::fs::read_to_string(&args[2]).expect("read");
